@@ -7,6 +7,16 @@ VERIF = os.path.dirname(os.path.dirname(os.path.abspath(__file__)))
 KNOWN = os.path.join(VERIF, 'known_findings.json')
 
 
+def evidence_dir():
+    """Evidence goes to /verif/evidence only when the analysed tree is /repo itself; runs on
+    scratch copies (mutants, seeded changes, the pinned tree) write to a scratch directory."""
+    root = os.path.realpath(os.environ.get('QV_ROOT', '/repo'))
+    if root == os.path.realpath('/repo'):
+        return os.path.join(VERIF, 'evidence')
+    d = os.environ.get('QV_EVIDENCE_DIR') or '/tmp/qv-evidence-scratch'
+    return d
+
+
 def load_known():
     try:
         with open(KNOWN) as f:
@@ -122,9 +132,10 @@ class Report:
                 matched.append((f, hit))
             else:
                 new.append(f)
-        os.makedirs(os.path.join(VERIF, 'evidence', 'replay'), exist_ok=True)
+        edir = evidence_dir()
+        os.makedirs(os.path.join(edir, 'replay'), exist_ok=True)
         # remove stale replay files of this property
-        rdir = os.path.join(VERIF, 'evidence', 'replay')
+        rdir = os.path.join(edir, 'replay')
         for fn in os.listdir(rdir):
             if fn.startswith(self.prop + '-'):
                 try:
@@ -179,7 +190,7 @@ class Report:
             'wall_s': round(wall, 3),
             'violations': len(new),
         }
-        with open(os.path.join(VERIF, 'evidence', '%s.json' % self.prop), 'w') as fh:
+        with open(os.path.join(edir, '%s.json' % self.prop), 'w') as fh:
             json.dump(ev, fh, indent=1, default=str)
         print('%s [%s]: %d rule(s), %d instance(s), %d/%d obligation(s) discharged, '
               '%d known finding(s), %d violation(s), %.1fs'
